@@ -147,12 +147,19 @@ type X struct {
 	outcomes   []uint64
 	sample     string
 	panicked   bool
+	stopAll    bool
 }
 
 type fail struct {
 	kind, cfg, msg string
 	input          []byte
+	final          bool // cannot be re-run in this process (state poisoned): reported without the 5x replay
 }
+
+// StopExploring ends this worker's exploration after the current execution
+// (the process state is no longer usable, e.g. a lock of the library is held
+// by a thread that was torn down).
+func (x *X) StopExploring() { x.stopAll = true }
 
 // Fail records a violation of the property on this execution.
 func (x *X) Fail(kind, cfg string, input []byte, format string, args ...any) {
@@ -332,15 +339,24 @@ func (c *Ctx) Explore(name, doc string, bound, maxLen int, d func(x *X)) {
 			}
 			// Confirm 5x from the recorded choice sequence.
 			ok = true
-			for i := 0; i < 5; i++ {
-				e2 := mc.Run(wrap, choices)
+			for i := 0; i < 5 && !f.final; i++ {
 				found := false
-				for _, f2 := range e2.User.(*X).fails {
-					v2 := c.mkViolation(name, f2, choices)
-					if v2.Key() == v.Key() {
-						found = true
+				func() {
+					defer func() {
+						if r := recover(); r != nil {
+							if fe, isFE := r.(*mc.FrameworkError); !isFE || !strings.HasPrefix(fe.Msg, "nondeterministic driver") {
+								panic(r)
+							}
+						}
+					}()
+					e2 := mc.Run(wrap, choices)
+					for _, f2 := range e2.User.(*X).fails {
+						v2 := c.mkViolation(name, f2, choices)
+						if v2.Key() == v.Key() {
+							found = true
+						}
 					}
-				}
+				}()
 				if !found {
 					ok = false
 					break
@@ -359,6 +375,9 @@ func (c *Ctx) Explore(name, doc string, bound, maxLen int, d func(x *X)) {
 			c.Res.Violations = append(c.Res.Violations, v)
 		}
 		if !c.Record && len(c.Res.Violations) >= c.maxNew {
+			ex.Stop = true
+		}
+		if x.stopAll {
 			ex.Stop = true
 		}
 	}
